@@ -26,6 +26,7 @@ import (
 	"encoding/json"
 	"errors"
 	"fmt"
+	"hash"
 	"io"
 	"iter"
 	"net/http"
@@ -525,8 +526,9 @@ func (m *Module) ModuleFile(ctx context.Context) ([]byte, error) {
 	if err != nil {
 		return nil, err
 	}
-	defer r.Close()
-	return io.ReadAll(r)
+	vr := newVerifyReader(r, m.manifest.Layers[1])
+	defer vr.Close()
+	return io.ReadAll(vr)
 }
 
 // Metadata returns the metadata associated with the module.
@@ -540,8 +542,52 @@ func (m *Module) Metadata() (*Metadata, error) {
 // and the contents should not be assumed to be correct until the close
 // error has been checked.
 func (m *Module) GetZip(ctx context.Context) (io.ReadCloser, error) {
-	return m.loc.Registry.GetBlob(ctx, m.loc.Repository, m.manifest.Layers[0].Digest)
+	r, err := m.loc.Registry.GetBlob(ctx, m.loc.Repository, m.manifest.Layers[0].Digest)
+	if err != nil {
+		return nil, err
+	}
+	return newVerifyReader(r, m.manifest.Layers[0]), nil
 }
+
+// verifyReader checks that the content read from r has the size and digest
+// that the manifest declares for it, whatever registry implementation is in use.
+// The check is made when the underlying reader reports EOF.
+type verifyReader struct {
+	r    io.ReadCloser
+	desc ocispec.Descriptor
+	h    hash.Hash
+	n    int64
+}
+
+func newVerifyReader(r io.ReadCloser, desc ocispec.Descriptor) *verifyReader {
+	vr := &verifyReader{r: r, desc: desc}
+	if alg := desc.Digest.Algorithm(); alg.Available() {
+		vr.h = alg.Hash()
+	}
+	return vr
+}
+
+func (r *verifyReader) Read(buf []byte) (int, error) {
+	n, err := r.r.Read(buf)
+	r.n += int64(n)
+	if r.h != nil {
+		r.h.Write(buf[:n])
+	}
+	if err != io.EOF {
+		return n, err
+	}
+	if r.n != r.desc.Size {
+		return n, fmt.Errorf("blob %v: got %d bytes, manifest declares %d: %w", r.desc.Digest, r.n, r.desc.Size, io.ErrUnexpectedEOF)
+	}
+	if r.h != nil {
+		if got := digest.NewDigest(r.desc.Digest.Algorithm(), r.h); got != r.desc.Digest {
+			return n, fmt.Errorf("blob %v: digest mismatch (got %v)", r.desc.Digest, got)
+		}
+	}
+	return n, io.EOF
+}
+
+func (r *verifyReader) Close() error { return r.r.Close() }
 
 // ManifestDigest returns the digest of the manifest representing
 // the module.
